@@ -588,6 +588,16 @@ def check_record_conversions(run, fx):
         sfields = [x["name"] for x in structs[src]["variants"][0]["fields"]]
         if not sfields or sfields == ["0"]:
             continue
+        tgt = (f.ret or "").strip()
+        mres = re.match(r"^core::result::Result<(.*), [^,<>]*(?:<[^<>]*>)?>$", tgt)
+        if mres:
+            tgt = mres.group(1).strip()
+        if not any(tgt.split("<", 1)[0] in c.adts for c in fx.crates.values()):
+            # the target is a scalar (the two halves of the epoch nanoseconds joined into an i128): a value the FFI computes,
+            # not a record conversion; the wide-integer rule (R1.ffi-wide-integer-encoding-injective) is the one that applies
+            run.ok(rule, f.path.replace("temporal_capi::", ""), "conversion of an FFI record to the scalar `%s`: not a record "
+                   "conversion, not decided here" % tgt, f.loc, nontrivial=False)
+            continue
         n += 1
         key = "%s" % f.path.replace("temporal_capi::", "")
         ev.lossy = []
